@@ -338,13 +338,15 @@ const HEADER_PREFIXES: [&str; 14] = [
     "%grmtools{a: 1",
 ];
 
-const YACC_SEEDS: [&str; 7] = [
+const YACC_SEEDS: [&str; 8] = [
     "%start A\n%token b\n%left '+'\n%right '*'\n%nonassoc '-'\n%%\nA: A '+' A | A '*' A %prec '+' | b;\n",
     "%start S\n%epp a \"an \\\"a\\\"\"\n%avoid_insert 'a'\n%expect 1\n%expect-rr 2\n%%\nS: 'a' S | ;\n",
     "%grmtools{yacckind: Grmtools}\n%start Expr\n%parse-param p: u64\n%%\nExpr -> Result<u64, ()>: Expr '+' Term { Ok($1? + $3?) } | Term { $1 };\nTerm -> Result<u64, ()>: 'INT' { Ok(1) };\n%%\nfn f() {}\n",
     "%grmtools{yacckind: Original(GenericParseTree), recoverer: RecoveryKind::None}\n%%\nA: 'é' /* c */ B // d\n ;\nB: %empty | \"x\";\n",
     "%implicit_tokens ws\n%expect-unused X 'y'\n%token y\n%%\nA: 'a';\nX: ;\n",
     "%actiontype T<'a>\n%parse-generics 'a, T: Clone\n%%\nA: 'a' { f(\"}\", '}', r#\"}\"#) } ;\n",
+    // the dangling-else idiom with the precedence declaration of LOW forgotten
+    "%start S\n%nonassoc 'else'\n%%\nS: 'if' S Else | 'x';\nElse: %empty %prec LOW | 'else' S;\n",
     // rules written in several pieces; the second piece of E spells its type differently
     "%grmtools{yacckind: Grmtools}\n%start E\n%%\nE -> Result<u64, ()>: E '+' T { $1 } ;\nT -> u64: 'n' { 1 } ;\nE -> Result<u64,()>: T { Ok($1) } ;\nT -> u64: 'm' { 2 } ;\n",
 ];
